@@ -154,14 +154,15 @@ pub fn contiguous_ascii<const H: usize, const N: usize, const P: usize>(k: Kind,
 include!(concat!(env!("NUCLEO_VERIF_GEN"), "/matcher_exact.rs"));
 
 /// C03 "never wraps around for long needles" / C10 "no arithmetic overflow": a haystack and a
-/// needle of L equal characters (the character and the whole configuration are symbolic; L is
-/// concrete and large enough that the plain sum exceeds u16::MAX). Kani's overflow checks are
+/// needle of L equal characters (the whole configuration is symbolic; L is concrete and large
+/// enough that the plain sum exceeds u16::MAX). Kani's overflow checks are
 /// the assertion; the result must be the saturated value.
 pub fn long_needle<const L: usize>(k: Kind) {
     let sc = sym_config(None);
-    let b = sym::ascii();
-    assume(b != 0x0b && !spec::is_ws_ascii(b));
-    assume(!(sc.cfg.ignore_case && b >= b'A' && b <= b'Z'));
+    // content concrete ('a' repeated): with a symbolic byte every whitespace-trimming and
+    // comparison loop gets a symbolic exit and symbolic execution of 4200 iterations does not
+    // finish; the whole configuration stays symbolic
+    let b = b'a';
     let hay = [b; L];
     let mut m = Matcher::new(sc.cfg.clone());
     let r = call(&mut m, k, Utf32Str::Ascii(&hay), Utf32Str::Ascii(&hay), None);
@@ -171,21 +172,27 @@ pub fn long_needle<const L: usize>(k: Kind) {
     std::mem::forget(m);
 }
 
-/// the prefer_prefix penalty for a match starting far into a long haystack must not overflow
-pub fn far_start<const L: usize>() {
-    let mut sc = sym_config(Some(true));
-    let b = sym::ascii();
-    let f = sym::ascii();
-    assume(b != f && !spec::is_ws_ascii(b) && !spec::is_ws_ascii(f) && b != 0x0b && f != 0x0b);
-    assume(!(sc.cfg.ignore_case && b >= b'A' && b <= b'Z'));
-    assume(spec::fold_ascii(f, sc.cfg.ignore_case) != b);
-    let mut hay = [f; L];
-    hay[L - 1] = b;
-    let needle = [b];
+/// the prefer_prefix penalty must not overflow wherever the match starts: the scoring walk is
+/// entered directly (no scan loops over the long haystack) with a SYMBOLIC start position in a
+/// haystack of 65 600 symbolic bytes and a one-character needle; Kani's overflow checks are the
+/// assertion
+pub fn prefix_penalty_all_starts() {
+    use crate::chars::AsciiChar;
+    const L: usize = 65_600;
+    let sc = sym_config(Some(true));
+    let hay: [u8; L] = sym::bytes();
+    let start = sym::usize_();
+    assume(start < L);
+    let needle = [hay[start]];
     let mut m = Matcher::new(sc.cfg.clone());
-    let r = m.postfix_match(Utf32Str::Ascii(&hay), Utf32Str::Ascii(&needle));
-    check!(r.is_some(), "C05 postfix match at the end of a long haystack");
-    let r2 = m.fuzzy_match_greedy(Utf32Str::Ascii(&hay), Utf32Str::Ascii(&needle));
-    check!(r2.is_some(), "C01 greedy match at the end of a long haystack");
+    let r = m.calculate_score::<false, AsciiChar, AsciiChar>(
+        AsciiChar::cast(&hay),
+        AsciiChar::cast(&needle),
+        start,
+        start + 1,
+        &mut Vec::new(),
+    );
+    check!(r >= 16, "C03 a one-character match scores at least the match score wherever it starts");
+    cover!(start > 30_000, "match far into the haystack");
     std::mem::forget(m);
 }
